@@ -401,7 +401,8 @@ pub fn notified(data: &[u8]) -> CaseResult {
             0..=3 => c20::Op::Set,
             4 => c20::Op::SetClone,
             5 | 6 => c20::Op::Sub,
-            7..=11 => c20::Op::Poll((b / 16) % 3),
+            7..=10 => c20::Op::Poll((b / 16) % 4),
+            11 => c20::Op::DropSub((b / 16) % 3),
             12 => c20::Op::Clone,
             _ => c20::Op::DropOriginal,
         })
